@@ -44,7 +44,9 @@ EXTRA = {
            "transcript_model_reads.tsv; the headers of the grouped TPM tables must equal those of the count tables; "
            "group names containing words of the headers; file:<table>:<read column>.",
     "C10": "Dimensions: repeated / numeric / NA-like names and ids, ids with quotes, numeric labels, per-experiment "
-           "short-read files (YAML key illumina bam).",
+           "short-read files (YAML key illumina bam); 35% of the joint runs keep their saved read assignments and "
+           "one more run is restarted from all of them (--read_assignments): its ungrouped tables, assignments and "
+           "models per experiment must equal those of the joint run.",
     "C11": "Stage corners holds parametrised noise-free templates (event order, micro-introns, threaded ends, adjacent "
            "clusters, similar novel isoforms, overlapping unspliced transcripts, ragged polyA ends, introns on both "
            "sides of a single-exon gene, a read-through tip, unspliced tailed reads that begin inside the last intron of "
